@@ -48,4 +48,20 @@ PROPS = {
         level_text="Generated histories of AddOrUpdate/Pop/Len/Bump/SetIndexed(success|fail)/MaybeRemoveMissing over <=5 repository ids (including ids the queue never saw), with fake-clock advances across the backoff periods, run on the real Queue and compared operation by operation (and by a final drain) with a small priority-queue model; plus 2-3 concurrent clients under the seeded scheduler whose invoke/return history must be linearizable w.r.t. the nondeterministic model (porcupine, 20 s timeout, Unknown never reported).",
         level_note="Samples histories and schedules. The model encodes the documented ordering key (not indexed first, non-failed first, FIFO), backoff = min(max, n*duration), removal keyed by repository id.",
     ),
+    "C18": dict(
+        group="search", level="exploration", rule=SCHED_RULE,
+        harnesses=[dict(name="C18", quick=16000, thorough=600000, quick_deadline_s=170, thorough_deadline_s=1500)],
+        components=S_COMPONENTS, assumptions=COMMON_ASSUME + ["claim limited to conservation through fan-out/fan-in under the explored schedules; the algebra of repository pre-selection is exercised by generated queries but its input space is not the object of the claim", "(type:repo q) is given the reference meaning 'repositories with a document matching q in any shard', computed with Search per shard"],
+        technique="deterministic simulation: seeded schedule exploration of the real shardedSearcher fan-out/fan-in, self-differential against per-shard sequential answers",
+        level_text="Seeded exploration of 1-3 concurrent Search/StreamSearch/List calls on the real shardedSearcher+typeRepoSearcher over 12 generated corpora (simple, compound and split shards; 4-6 repositories) with worker-pool width 1-16 and scheduler capacity 1-4; every answer must equal, as a multiset of normalised file matches, the union over shards of the same query run alone on a freshly loaded copy of each shard; listings must contain each repository once with statistics summed over its shards.",
+        level_note="Samples schedules and queries. Reference = the same index.Search/List code run sequentially per shard (self-differential), so a bug shared by both sides is invisible.",
+    ),
+    "C04": dict(
+        group="search", level="exploration", rule=SCHED_RULE + " Sequential single-client histories (one third of the runs) count as non-trivial when they contain >= 2 answered calls with a non-empty reference.",
+        harnesses=[dict(name="C04", quick=12000, thorough=500000, quick_deadline_s=170, thorough_deadline_s=1500)],
+        components=S_COMPONENTS, assumptions=COMMON_ASSUME + ["reference = each query run alone on a freshly loaded, cache-less copy of every shard (self-differential)"],
+        technique="deterministic simulation: seeded histories and interleavings of searches on one loaded searcher (match-tree cache off/1/2/8/64, map-order eviction from the tape), self-differential against fresh searchers",
+        level_text="1-4 clients issue 2-6 searches/streams/listings each from a small query pool biased to repeat metadata atoms, sequentially and concurrently, against one shardedSearcher loaded with ZOEKT_DOCMATCHTREE_CACHE unset/1/2/8/64 (cache eviction order = map order, drawn from the tape); every answer (files, matches, branches, scores) must equal the answer of the same query run alone on freshly loaded shards without cache; no panic, Stats.Crashes == 0.",
+        level_note="Samples histories/schedules over 12 generated corpora; query space sampled from a small grammar.",
+    ),
 }
